@@ -10,21 +10,21 @@ theorem tc_le (s : Cipher) : tc s ≤ 2 ^ 32 := by
   · exact Nat.le_refl _
   · exact Nat.le_of_lt (UInt32.toNat_lt _)
 
-/-- XORKeyStream (bufSize = 64) against the specification -/
-theorem xorKeyStream_spec (s : Cipher) (hi : Inv s) (src : Bytes) :
-    if src.length = 0 then xorKeyStream 1 s src = .ok (s, [])
-    else if pos s + src.length > limit then xorKeyStream 1 s src = .error .overflow
-    else ∃ s', xorKeyStream 1 s src = .ok (s', xorBytes src (ksRange s.key s.nonce (pos s) src.length)) ∧
-         Inv s' ∧ pos s' = pos s + src.length ∧ s'.key = s.key ∧ s'.nonce = s.nonce := by
+/-- XORKeyStream (bufSize = 64·m) against the specification -/
+theorem xorKeyStream_spec (m : Nat) (s : Cipher) (hi : Inv m s) (src : Bytes) :
+    if src.length = 0 then xorKeyStream m s src = .ok (s, [])
+    else if pos s + src.length > limit then xorKeyStream m s src = .error .overflow
+    else ∃ s', xorKeyStream m s src = .ok (s', xorBytes src (ksRange s.key s.nonce (pos s) src.length)) ∧
+         Inv m s' ∧ pos s' = pos s + src.length ∧ s'.key = s.key ∧ s'.nonce = s.nonce := by
   by_cases h0 : src.length = 0
   · simp [h0, xorKeyStream]
   simp only [h0, if_false]
   have htc := tc_le s
   by_cases hl0 : s.len = 0
   · -- nothing buffered
-    have hd : drain 1 s src = (s, [], src) := by simp [drain, hl0]
+    have hd : drain m s src = (s, [], src) := by simp [drain, hl0]
     have hp : pos s = 64 * tc s := by simp [pos, hl0]
-    have := xorRest_spec s hi hl0 src h0
+    have := xorRest_spec m s hi hl0 src h0
     rw [hp]
     simp only [xorKeyStream, h0, hd, if_false]
     by_cases hpanic : 64 * tc s + src.length > limit
@@ -34,10 +34,10 @@ theorem xorKeyStream_spec (s : Cipher) (hi : Inv s) (src : Bytes) :
       obtain ⟨s', he, hinv, hpos, hk, hn⟩ := this
       exact ⟨s', by simp [he, Except.map], hinv, hpos, hk, hn⟩
   · -- drain the buffered keystream first
-    have hks : (s.buf.drop (64 * 1 - s.len)).take src.length =
+    have hks : (s.buf.drop (64 * m - s.len)).take src.length =
         ksRange s.key s.nonce (pos s) (min src.length s.len) := by
-      rw [Nat.mul_one, hi.bufks, ksRange_take]
-    have hd : drain 1 s src =
+      rw [hi.bufks, ksRange_take]
+    have hd : drain m s src =
         ({ s with len := s.len - min src.length s.len },
           xorBytes (src.take (min src.length s.len)) (ksRange s.key s.nonce (pos s) (min src.length s.len)),
           src.drop (min src.length s.len)) := by
@@ -56,23 +56,25 @@ theorem xorKeyStream_spec (s : Cipher) (hi : Inv s) (src : Bytes) :
       · have hpos' : pos { s with len := s.len - src.length } = pos s + src.length := by
           show 64 * tc s - (s.len - src.length) = pos s + src.length
           omega
-        refine ⟨hi.buflen, by simp only; omega, by show s.len - src.length ≤ 64 * tc s; omega, hi.ovf, ?_, hi.pre⟩
+        refine ⟨hi.mpos, hi.buflen, by simp only; omega, by show s.len - src.length ≤ 64 * tc s; omega, hi.ovf, ?_, hi.pre,
+          fun h => by have := hi.ovflen h; simp only; omega⟩
         rw [hpos']
         simp only
-        rw [show 64 - (s.len - src.length) = (64 - s.len) + src.length by omega, ← List.drop_drop, hi.bufks,
+        rw [show 64 * m - (s.len - src.length) = (64 * m - s.len) + src.length by omega, ← List.drop_drop, hi.bufks,
           ksRange_drop]
       · show 64 * tc s - (s.len - src.length) = pos s + src.length
         omega
     · -- all of the buffer is used, the rest comes from fresh blocks
       have hmin : min src.length s.len = s.len := Nat.min_eq_right (by omega)
       rw [hmin, Nat.sub_self] at hd
-      have hi1 : Inv { s with len := 0 } := by
-        refine ⟨hi.buflen, by simp, by simp, hi.ovf, ?_, hi.pre⟩
+      have hm := hi.mpos
+      have hi1 : Inv m { s with len := 0 } := by
+        refine ⟨hi.mpos, hi.buflen, by simp only; omega, by simp, hi.ovf, ?_, hi.pre, fun _ => by simp⟩
         simp [hi.buflen, ksRange]
       have hr : (src.drop s.len).length ≠ 0 := by simp; omega
       have hrl : (src.drop s.len).length = src.length - s.len := by simp
       have htc1 : tc { s with len := 0 } = tc s := rfl
-      have := xorRest_spec { s with len := 0 } hi1 rfl (src.drop s.len) hr
+      have := xorRest_spec m { s with len := 0 } hi1 rfl (src.drop s.len) hr
       rw [htc1, hrl] at this
       have hcond : (64 * tc s + (src.length - s.len) > limit) ↔ (pos s + src.length > limit) := by
         simp only [pos]; omega
@@ -95,45 +97,76 @@ theorem xorKeyStream_spec (s : Cipher) (hi : Inv s) (src : Bytes) :
         congr 3
         simp only [pos]; omega
 
-/-- SetCounter (bufSize = 64) against the specification -/
-theorem setCounter_spec (s : Cipher) (hi : Inv s) (c : UInt32) :
+/-- SetCounter (bufSize = 64·m) against the specification -/
+theorem setCounter_spec (m : Nat) (s : Cipher) (hi : Inv m s) (c : UInt32) :
     if pos s > limit - 64 ∨ 64 * c.toNat < pos s then setCounter s c = .error .rollback
-    else ∃ s', setCounter s c = .ok s' ∧ Inv s' ∧ pos s' = 64 * c.toNat ∧ s'.key = s.key ∧ s'.nonce = s.nonce := by
+    else ∃ s', setCounter s c = .ok s' ∧ Inv m s' ∧ pos s' = 64 * c.toNat ∧ s'.key = s.key ∧ s'.nonce = s.nonce := by
   have hlenlt := hi.lenlt
   have hlenle := hi.lenle
-  have hl64 : s.len / 64 = 0 := by omega
+  have hm := hi.mpos
   have hpdef : pos s = 64 * tc s - s.len := rfl
   have hclt := UInt32.toNat_lt s.counter
   by_cases hov : s.overflow = true
-  · have htc : tc s = 2 ^ 32 := by simp [tc, hov]
+  · -- the last block has been produced; less than one block is still buffered
+    have htc : tc s = 2 ^ 32 := by simp [tc, hov]
+    have hl := hi.ovflen hov
     have : pos s > limit - 64 := by simp only [limit]; omega
     simp [this, setCounter, hov]
   · have hov' : s.overflow = false := by simpa using hov
     have htc : tc s = s.counter.toNat := by simp [tc, hov']
-    have hlt : c < s.counter ↔ 64 * c.toNat < pos s := by
-      rw [UInt32.lt_iff_toNat_lt]; omega
+    have hoc : (s.counter - UInt32.ofNat (s.len / 64)).toNat = s.counter.toNat - s.len / 64 := by
+      have h1 : (UInt32.ofNat (s.len / 64)).toNat = s.len / 64 := by
+        rw [UInt32.toNat_ofNat']; omega
+      rw [UInt32.toNat_sub_of_le _ _ (by rw [UInt32.le_iff_toNat_le, h1]; omega), h1]
+    have hlt : c < s.counter - UInt32.ofNat (s.len / 64) ↔ 64 * c.toNat < pos s := by
+      rw [UInt32.lt_iff_toNat_lt, hoc]; omega
     have hnot : ¬ (pos s > limit - 64) := by simp only [limit]; omega
     by_cases hroll : 64 * c.toNat < pos s
-    · simp [hroll, setCounter, hov', hl64, hlt.mpr hroll]
-    · have hnlt : ¬ (c < s.counter) := fun h => hroll (hlt.mp h)
+    · simp [hroll, setCounter, hov', hlt.mpr hroll]
+    · have hnlt : ¬ (c < s.counter - UInt32.ofNat (s.len / 64)) := fun h => hroll (hlt.mp h)
       simp only [hnot, hroll, or_self, if_false]
-      refine ⟨{ s with counter := c, len := 0 }, ?_, ?_, ?_, rfl, rfl⟩
-      · simp [setCounter, hov', hl64, hnlt]
-      · refine ⟨hi.buflen, by simp, by simp, ?_, ?_, hi.pre⟩
-        · intro h; exact absurd h hov
-        · simp [hi.buflen, ksRange]
-      · simp [pos, tc, hov']
+      by_cases hin : c < s.counter
+      · -- advancing inside the buffered blocks
+        have hin' : c.toNat < s.counter.toNat := UInt32.lt_iff_toNat_lt.mp hin
+        have hd : (s.counter - c).toNat = s.counter.toNat - c.toNat := by
+          rw [UInt32.toNat_sub_of_le _ _ (by rw [UInt32.le_iff_toNat_le]; omega)]
+        have hnl : (s.counter - c).toNat * 64 ≤ s.len := by rw [hd]; omega
+        refine ⟨{ s with len := (s.counter - c).toNat * 64 }, ?_, ?_, ?_, rfl, rfl⟩
+        · simp [setCounter, hov', hnlt, hin]
+        · have hpos' : pos { s with len := (s.counter - c).toNat * 64 } = 64 * c.toNat := by
+            show 64 * tc s - (s.counter - c).toNat * 64 = 64 * c.toNat
+            rw [htc, hd]; omega
+          refine ⟨hm, hi.buflen, by simp only; omega, by show (s.counter - c).toNat * 64 ≤ 64 * tc s; omega,
+            hi.ovf, ?_, hi.pre, ?_⟩
+          · rw [hpos']
+            simp only
+            rw [show 64 * m - (s.counter - c).toNat * 64 =
+              (64 * m - s.len) + (s.len - (s.counter - c).toNat * 64) by omega, ← List.drop_drop, hi.bufks,
+              ksRange_drop]
+            congr 1
+            · rw [hd]; omega
+            · omega
+          · intro h; exact absurd h hov
+        · show 64 * tc s - (s.counter - c).toNat * 64 = 64 * c.toNat
+          rw [htc, hd]; omega
+      · refine ⟨{ s with counter := c, len := 0 }, ?_, ?_, ?_, rfl, rfl⟩
+        · simp [setCounter, hov', hnlt, hin]
+        · refine ⟨hm, hi.buflen, by simp only; omega, by simp, ?_, ?_, hi.pre, ?_⟩
+          · intro h; exact absurd h hov
+          · simp [hi.buflen, ksRange]
+          · intro h; exact absurd h hov
+        · simp [pos, tc, hov']
 
 /-- one concrete step refines the abstract step: same panic, or same output with the invariant and the
     abstraction carried to the next state -/
-theorem step_refines (s : Cipher) (hi : Inv s) (op : Op) :
-    match step 1 s op, specStep s.key s.nonce (pos s) op with
-    | .ok (s', out), .ok (p', out') => Inv s' ∧ pos s' = p' ∧ out = out' ∧ s'.key = s.key ∧ s'.nonce = s.nonce
+theorem step_refines (m : Nat) (s : Cipher) (hi : Inv m s) (op : Op) :
+    match step m s op, specStep s.key s.nonce (pos s) op with
+    | .ok (s', out), .ok (p', out') => Inv m s' ∧ pos s' = p' ∧ out = out' ∧ s'.key = s.key ∧ s'.nonce = s.nonce
     | .error e, .error e' => e = e'
     | _, _ => False := by
   cases op with
   | xor src =>
-    have := xorKeyStream_spec s hi src
+    have := xorKeyStream_spec m s hi src
     simp only [step, specStep]
     by_cases h0 : src.length = 0
     · simp only [h0, if_true] at this ⊢
@@ -148,7 +181,7 @@ theorem step_refines (s : Cipher) (hi : Inv s) (op : Op) :
         rw [he]
         exact ⟨hinv, hpos, rfl, hk, hn⟩
   | setCounter c =>
-    have := setCounter_spec s hi c
+    have := setCounter_spec m s hi c
     simp only [step, specStep]
     by_cases hp : pos s > limit - 64 ∨ 64 * c.toNat < pos s
     · simp only [hp, if_true] at this ⊢
@@ -161,14 +194,14 @@ theorem step_refines (s : Cipher) (hi : Inv s) (op : Op) :
 
 /-- **history refinement**: for every history of XORKeyStream / SetCounter calls, the concrete cipher
     produces exactly the outputs and the panic of the position-based specification -/
-theorem run_refines (ops : List Op) (s : Cipher) (hi : Inv s) :
-    run 1 s ops = specRun s.key s.nonce (pos s) ops := by
+theorem run_refines (m : Nat) (ops : List Op) (s : Cipher) (hi : Inv m s) :
+    run m s ops = specRun s.key s.nonce (pos s) ops := by
   induction ops generalizing s with
   | nil => rfl
   | cons op rest ih =>
-    have h := step_refines s hi op
+    have h := step_refines m s hi op
     simp only [run, specRun]
-    cases hc : step 1 s op with
+    cases hc : step m s op with
     | error e =>
       cases ha : specStep s.key s.nonce (pos s) op with
       | error e' => simp only [hc, ha] at h; simp [h]
